@@ -250,7 +250,7 @@ def run_gate_jobs(jobs, timeout=None):
     """results in job order; a job the child did not answer in time is {"hang": True}"""
     if not jobs:
         return []
-    timeout = BATCH_TIMEOUT if timeout is None else timeout
+    timeout = max(BATCH_TIMEOUT, 1.0 * len(jobs)) if timeout is None else timeout   # one job takes ~0.1 s
     ctx = mp.get_context("fork")
     parent, child = ctx.Pipe(duplex=False)
     p = ctx.Process(target=_child, args=(child, jobs), daemon=True)
